@@ -2,7 +2,9 @@ from excel2pycl.src.context import Context
 from excel2pycl.src.excel import Excel
 from excel2pycl.src.tokens import ExpressionToken, AmpersandToken, DateControlConstructionToken, \
     TodayControlConstructionToken, EqOperatorToken, NotEqOperatorToken, GtOperatorToken, GtOrEqualOperatorToken, \
-    LtOperatorToken, LtOrEqualOperatorToken, PercentToken, OneLeftOperandExpressionToken
+    LtOperatorToken, LtOrEqualOperatorToken, PercentToken, OneLeftOperandExpressionToken, \
+    OneOperandArithmeticOperatorToken
+from excel2pycl.src.exceptions import E2PyclParserException
 from excel2pycl.src.translators.abstract_translator import AbstractTranslator
 
 
@@ -50,6 +52,9 @@ class ExpressionTokenTranslator(AbstractTranslator):
                 return f'self._compare("{operator}", {left_operand}, {right_operand})'
 
             if operator.__class__ is PercentToken:
+                if right_operand and not isinstance(token.right_operand.value[0], OneOperandArithmeticOperatorToken):
+                    # `2%3`, `2%(3)`: after a percent sign only an operator can follow
+                    raise E2PyclParserException(f'An operator is expected after % in {token.in_cell}')
                 left_operand = f'self._normalize_float_number({left_operand} / 100)'
                 operator = None
             else:
